@@ -223,6 +223,18 @@ class Builtins:
                         return sym.subset(b.term, o.term)
                     return z3.SetIntersect(o.term, b.term) == sym.empty_set()
                 return Builtin("set." + attr, rel)
+            if attr in ("update", "add"):
+                def upd(a, k):
+                    self.I.heap_log.append(("mutate-set", id(o), attr, self.I.where()))
+                    for s_ in a:
+                        if attr == "add":
+                            o.term = z3.Store(o.term, self.key_term(s_), z3.BoolVal(True))
+                        elif isinstance(s_, SSet):
+                            o.term = sym.union(o.term, s_.term)
+                        else:
+                            raise Unsupported(f"set.update with {s_!r}")
+                    return None
+                return Builtin("set." + attr, upd)
             if attr == "union":
                 def un(a, k):
                     t = o.term
